@@ -158,6 +158,7 @@ struct C18 : Scenario {
         fs::begin_run(root);
         Model m = generate_model(static_cast<std::uint64_t>(plan.geti("model_seed")), GenOpts::from_json(plan.at("gen")));
         if (plan.has("drops")) apply_drops(m, plan.at("drops"));
+        kw_histogram(m, r.counters);
         const auto ix = action_index(m);
         RunCfg cfg; cfg.physics_seed = static_cast<std::uint64_t>(plan.geti("physics_seed"));
         for (size_t k = 0; k < plan.at("ministeps").size(); ++k) { std::vector<double> f; for (size_t q = 0; q < plan.at("ministeps")[k].size(); ++q) f.push_back(plan.at("ministeps")[k][q].as_d()); cfg.ministeps.push_back(f); }
